@@ -133,6 +133,8 @@ def labels():
     # words that a careless conversion would take for a number or a constant (float("inf"), float("-Infinity"),
     # float("nan"), eval("True")); in the grammar they are plain labels
     out += ["inf", "nan", "Infinity", "NaN", "INF", "-inf", "+INF", "-Infinity", "infinity", "True", "False", "None", "e5", "E-3", "-e2", "+.e1"]
+    # the word that ends a file, as (part of) a name
+    out += ["End", "My-End", "End(2S)", "D*End", "End_x", "Enddecays"]
     return list(dict.fromkeys(out))
 
 
